@@ -35,6 +35,10 @@ pub enum Event {
     RepeatIter { before: usize, after: usize },
     /// The call limit refused a call (`count` calls had been made).
     CallRefused { count: usize },
+    /// `ParserState::lookahead` was entered (`positive`: `&e`, otherwise `!e`).
+    LookaheadEnter { positive: bool },
+    /// The lookahead entered by the matching `LookaheadEnter` is about to return.
+    LookaheadExit,
     /// The VM entered a rule (any rule, including silent and built-in ones).
     VmRuleEnter { rule: String, pos: usize },
     /// The VM left the rule entered by the matching `VmRuleEnter`.
